@@ -74,6 +74,10 @@ Definition lhsm_ok (fa : list (Z * string)) (fb : list (Z * list (Z * string))) 
     (chs : list path) (nbp : Z) (e : list (Z * list string)) : bool :=
   paths_eqb (set_paths chs) (set_paths (chains g lo hi)) && Nat.eqb (List.length chs) (List.length (chains g lo hi)) &&
   sd_ok (linear_hash_smiles_with (fa_of fa) (fb_of fb) hash_ztuple_fast idd g chs nbp) e.
+(* the suggested fix of linear_hash_smiles, against its reference implementation in the check (fixed_lhs) *)
+Definition lhsmf_ok (fa : list (Z * string)) (fb : list (Z * list (Z * string))) (idd : list (Z * Z)) (g : mol) (lo hi : Z)
+    (chs : list path) (nbp : Z) (e : list (Z * list string)) : bool :=
+  sd_ok (linear_hash_smiles_fixed_with (fa_of fa) (fb_of fb) hash_ztuple_fast idd g chs nbp) e.
 (* CGR containers (Model.FingerprintCGR) *)
 Definition cwf_ok (c : cgr) : bool := wf_cgr c.
 Definition cids_ok (c : cgr) (e : list (Z * Z)) : bool := dict_eqb (cgr_atom_identifiers c) e.
@@ -375,6 +379,9 @@ def mol_cases(ck, tag, g, m, rng):
                 exp = m.linear_hash_smiles(lo, hi, nbp)
                 add(f'lhsm_ok fa{g} fb{g} {d} {a} {pl(order)} {zraw(nbp)} {lst([tup(zx(k), lst([cstr(x) for x in v])) for k, v in exp.items()])}',
                     'linear_hash_smiles (over the observed set order and spellings)', (lo, hi, nbp), lanes)
+                expf = fixed_lhs(m, lo, hi, nbp)
+                add(f'lhsmf_ok fa{g} fb{g} {d} {a} {pl(order)} {zraw(nbp)} {lst([tup(zx(k), lst([cstr(x) for x in v])) for k, v in expf.items()])}',
+                    'suggested fix of linear_hash_smiles (reference implementation of the check)', (lo, hi, nbp), lanes)
         if affordable(lanes + 4 * n) and (small or lanes < 300):
             ln = rng.choice(LENGTHS + BAD_LENGTHS[:1]) if rng.random() < 0.9 else rng.choice(BAD_LENGTHS)
             nab, nbp = rng.choice(NABS), rng.choice(NBPS)
@@ -985,6 +992,21 @@ def window_bits(h, length, nab):
     return {(h // 2 ** (i * k)) % length for i in range(max(1, nab))}
 
 
+def fixed_lhs(m, lo, hi, nbp):
+    """reference implementation of the suggested fix of linear_hash_smiles: every chain of the fragment is spelt, both
+    directions when the key is a palindrome (Model.LinearSmiles.lhs_of_fixed)"""
+    from collections import defaultdict
+    cap = nbp or 999_999_999
+    out = defaultdict(set)
+    for frg, chains in m._fragments(lo, hi).items():
+        sp = {smi_of(m, c) for c in chains}
+        if frg == frg[::-1]:
+            sp |= {smi_of(m, c[::-1]) for c in chains}
+        for cnt in range(min(len(chains), cap)):
+            out[hash((*frg, cnt))].update(sp)
+    return {k: sorted(v) for k, v in out.items()}
+
+
 def smi_of(m, chain):
     s = [m._format_atom(chain[0], None, stereo=False)]
     for x, y in zip(chain, chain[1:]):
@@ -1170,6 +1192,11 @@ def search_molecule_(ck, tag, smi, m, rng, budget_params):
             cx(ck, f'hash_smiles_spelling:{tag}', 'linear_hash_smiles attaches a SMILES that spells none of the chains of that fragment',
                               {'molecule': tag, 'hash': hsh}, sm, sorted(spell.get(hsh, ()))[:5], 'fragment spelling')
             break
+    # the suggested fix (C17_linear_hash_smiles_fixed_numbering_independent) on the real spelling functions
+    m3 = renumbered(m, rng)
+    ck.case(('fixed linear_hash_smiles', tag, lo, hi, nbp))
+    if fixed_lhs(m, lo, hi, nbp) != fixed_lhs(m3, lo, hi, nbp):
+        ck.extra.setdefault('suggested_fix_failures', []).append(tag)
     if smi and len(m._atoms) <= 40:
         a = {k: sorted(v) for k, v in m.morgan_hash_smiles(1, 3).items()}
         m2 = renumbered(m, rng)
@@ -1262,6 +1289,13 @@ def search(ck, n_corpus, n_generated):
         params = rng.sample(RADII if small else [r for r in RADII if r[1] <= 5], 3)
         n_eval += search_molecule(ck, tag, smi, m, rng, params)
     known_witness(ck)
+    wm = parse(KNOWN_SMILES)
+    wm2 = wm.copy()
+    wm2.remap({2: 3, 3: 2})
+    fails = ck.extra.get('suggested_fix_failures', [])
+    ck.oblige(f'the suggested fix of linear_hash_smiles (spell every chain, both directions of a palindromic key, sorted) is numbering independent on the '
+              f'witness {KNOWN_SMILES} and on {len(mols)} searched molecules (real spelling functions)',
+              not fails and fixed_lhs(wm, 1, 1, 4) == fixed_lhs(wm2, 1, 1, 4) and wm.linear_hash_smiles(1, 1) != wm2.linear_hash_smiles(1, 1), 'search', repr(fails[:5]))
     ck.extra['search_oracle_evaluations'] = n_eval
     ck.extra['search_molecules'] = len(mols)
 
